@@ -249,6 +249,39 @@ func rulesC15(w *World, o *Out) {
 			o.Check("C15.R3", "UpdateBridgeTransferUsageWithLimit|new total is the amount or stored total + amount", ok, w.Pos(st.Pos()), "unexpected usage arithmetic: "+strings.Join(names, "."))
 		}
 	}
+	// who is exempt is decided by looking at every listed address (the list is stored as given, in no order)
+	if bt := w.Func(skw, "Keeper", "bridgeTaxAmount"); bt != nil {
+		var bs []string
+		for _, g := range unitFuncs(bt) {
+			for _, c := range CallsIn(g) {
+				if c.Fn != g {
+					continue
+				}
+				if (c.Callee.Pkg == "sort" && strings.HasPrefix(c.Callee.Name, "Search")) || (c.Callee.Pkg == "slices" && strings.HasPrefix(c.Callee.Name, "BinarySearch")) {
+					bs = append(bs, c.Callee.Pkg+"."+c.Callee.Name)
+				}
+			}
+		}
+		o.Check("C15.R2", "bridgeTaxAmount|the exemption list is searched exhaustively", len(bs) == 0, w.Pos(bt.Pos()), "a binary search ("+strings.Join(bs, ",")+") over the exemption list misses listed senders unless every writer stores the list sorted; SetBridgeTax and genesis import store it as given")
+	}
+	// a transfer released back to the pool keeps the tax recorded with it
+	if cb := w.Func(skw, "Keeper", "CancelOutgoingTXBatch"); cb != nil {
+		for _, g := range unitFuncs(cb) {
+			for _, c := range CallsIn(g) {
+				if c.Fn != g || c.Callee.Name != "addUnbatchedTX" {
+					continue
+				}
+				x, _ := fl.Influence(c.Args()[len(c.Args())-1])
+				tax := false
+				for ap := range x {
+					if strings.HasSuffix(ap.Path, ".BridgeTaxAmount") || strings.HasSuffix(ap.Path, ".Transactions[]") || strings.HasSuffix(ap.Path, "[]") {
+						tax = true
+					}
+				}
+				o.Check("C15.R3", "CancelOutgoingTXBatch|a re-pooled transfer keeps its recorded tax", tax, w.Pos(c.Instr.Pos()), "the pool entry put back must be the batch's transfer itself or carry its BridgeTaxAmount; rebuilt without it, a later cancel refunds the amount only and the tax stays locked")
+			}
+		}
+	}
 	// a window starts at the height of the transfer that opens it (or keeps the start it has): anchored anywhere
 	// else, the next transfer sees it as already expired and the tally restarts again and again
 	if upd != nil {
@@ -1054,6 +1087,27 @@ func rulesC17(w *World, o *Out) {
 			}
 		}
 		o.Check("C17.R3", "injectSenderIntoPayload|payload followed by the identity padded to 32 bytes", okPad && okApp, w.Pos(inj.Pos()), "must return append(payload, zeroPadBytes(sender, 32)...)")
+	}
+	// which contract is called comes from the stored definition only: definition and payload are decoded into
+	// separate values
+	if uj := w.Func("x/evm/keeper", "Keeper", "unmarshalJob"); uj != nil {
+		targets := map[ssa.Value]int{}
+		for _, c := range CallsIn(uj) {
+			if c.Callee.Pkg == "encoding/json" && c.Callee.Name == "Unmarshal" && len(c.Args()) == 2 {
+				t := c.Args()[1]
+				if mi, isMI := t.(*ssa.MakeInterface); isMI {
+					t = mi.X
+				}
+				targets[baseOf(t)]++
+			}
+		}
+		shared := false
+		for _, n := range targets {
+			if n > 1 {
+				shared = true
+			}
+		}
+		o.Check("C17.R3", "unmarshalJob|definition and payload are decoded into separate values", len(targets) >= 2 && !shared, w.Pos(uj.Pos()), "decoding the caller-suppliable payload into the value that holds the definition lets payload keys (address, abi) overwrite the job's contract")
 	}
 	if zp := w.MustFunc(o, "x/evm/keeper", "", "zeroPadBytes"); zp != nil {
 		// left padding: copy(ret[size-len:], input)
